@@ -224,8 +224,9 @@ def main(argv=None):
     if not a.no_evidence and not a.replay and not a.units:
         trusted = sorted(set(getattr(mod, "TRUSTED", [])) | assumed)
         ev = dict(
-            property_id=prop, tier=tier, seed=seed, level="proof",
+            property_id=prop, tier=tier, seed=seed, level=getattr(mod, "LEVEL", "proof"),
             coverage=dict(
+                explanation=getattr(mod, "EXPLANATION", "contract-based deductive verification: obligations generated from the extracted jaxprs of the real functions and discharged by z3/cvc5; see obligation_list"),
                 obligations=n_obl, discharged=len(discharged),
                 checker_cmd=f"./check {prop} --tier {tier}",
                 trusted_base=trusted,
